@@ -121,7 +121,19 @@ func registries(m *modSpec, o *obsResult, pkgName string, withRand bool) string 
 	b.WriteString("}\n\nvar VerifUnions = map[string][]func() interface{}{\n")
 	for _, n := range localNameds(o, "KdUnion") {
 		fmt.Fprintf(&b, "\t%q: {\n", n.Local)
-		for _, mem := range n.Members {
+		// the members the analysis found, then the implementers go/types finds that it did not list: a Go
+		// program can hold them in the union
+		mems := append([]string{}, n.Members...)
+		for _, imp := range n.Implementers {
+			found := false
+			for _, mem := range mems {
+				found = found || mem == imp
+			}
+			if !found {
+				mems = append(mems, imp)
+			}
+		}
+		for _, mem := range mems {
 			fmt.Fprintf(&b, "\t\tfunc() interface{} { var v %s; return v },\n", mem)
 		}
 		b.WriteString("\t},\n")
